@@ -9,12 +9,22 @@
     thread); in_x pc = pc inside the transmit closure X1..X9; t_flag = isCyclicEnabled, t_last =
     its value read most recently under the lock, t_wake = token in the wake-up channel, t_armed =
     ticker running, t_tick = tick buffered, t_stale = ticks taken since the ticker was stopped.
+    Runner/RunLts.v adds (proofs: Runner/RunProofs.v)
+    - a timed layer over the LTS for the send deadline: per thread t, ts_clk = the clock reading
+      it saw last, ts_hr = its clock reading when its before-transmit hook returned last, ts_dl =
+      the deadline of the context handed to TransmitFrame (between WithTimeout at pc X9 and the
+      return of TransmitFrame); timed events TE e (an LTS event other than Transmit), TStamp t c,
+      TDeadline t c (WithTimeout: deadline := c + send_timeout (cycle t)), TTransmit t f ok d;
+    - the LTS of Run itself (qstep: Cancel at any time - also before Run is called or during
+      Connect -, ConnectCall, ConnectRet ok, Spawn n, WorkerRet ok, Close, Return ok; q_closes =
+      calls of conn.Close(), q_live / q_closer = worker goroutines / closer goroutine still running).
     PARTIAL with respect to the property text (labelled, measured by the harness only): real time
-    ("frames start within a bounded number of cycle times"), goroutine leaks, closing of the
-    connection.  Termination after Cancel is proved under fairness hypotheses that are written out
-    as Props in the statements (C14_cancel_reaches_done); that the Go scheduler IS fair is not. *)
-From Coq Require Import Arith Bool List String Ascii.
-From CanVerif Require Import Runner.Lts Runner.RunModel Runner.LockDiscipline Runner.Protocol.
+    ("frames start within a bounded number of cycle times"; that the write of a frame finishes
+    within its send timeout), goroutine leaks of the real runtime.  Termination after Cancel is
+    proved under fairness hypotheses that are written out as Props in the statements
+    (C14_cancel_reaches_done); that the Go scheduler IS fair is not. *)
+From Coq Require Import Arith Bool List String Ascii ZArith.
+From CanVerif Require Import Runner.Lts Runner.RunModel Runner.LockDiscipline Runner.Protocol Runner.RunLts Runner.RunProofs.
 Import ListNotations.
 
 (** I4 exactly-once: accepted + ticks_taken - transmitted - aborted is 1 inside transmit, else 0 *)
@@ -58,6 +68,18 @@ Theorem C14_I5_parked_ticker_matches_flag : forall cfg s t x,
   t_armed x = t_flag x && t_cyclic x.
 Proof. exact I5_parked_ticker_matches_flag. Qed.
 Print Assumptions C14_I5_parked_ticker_matches_flag.
+
+(** [reachable cfg] ranges over initial configurations in which a transmitter's message may ALREADY
+    be enabled with NO token in its wake-up channel (role RoleTxOn: enabled before an earlier run of
+    the same node, which consumed the token; run / cancel / run again).  So: cyclic transmission
+    that is enabled is in force whenever the loop is parked with nothing pending - also when it was
+    enabled while no runner was running *)
+Theorem C14_enabled_parked_is_armed : forall cfg s t x,
+  reachable cfg s -> th s t = TTx x -> t_pc x = SEL -> t_wake x = false ->
+  (forall a ap, th s a = TApp ap -> a_pc ap <> AMid t) ->
+  t_flag x = true -> t_cyclic x = true -> t_armed x = true.
+Proof. exact enabled_parked_is_armed. Qed.
+Print Assumptions C14_enabled_parked_is_armed.
 
 (** I6: after a handled disable at most one, already buffered, tick is consumed *)
 Theorem C14_I6_at_most_one_stale_tick : forall cfg s t x,
@@ -200,6 +222,75 @@ Theorem C14_run_error_refuted :
                  run_spec node (Some (wrap_receiver e)) <> None /\ e = txt "valve closed".
 Proof. exact run_error_refuted. Qed.
 
+(** send deadline: in every reachable state of the timed layer (any configuration, interleaving and
+    clock readings) the deadline handed to TransmitFrame is (a clock reading taken by the
+    transmitter after its before-transmit hook returned, and not after the call) + the send timeout,
+    where send_timeout cycle = cycle, or one second if the message has no cycle time.  The time the
+    hook (or waiting for the node lock before it) takes is therefore never charged to the send
+    timeout: an accepted request / due tick is not lost to an already expired deadline *)
+Theorem C14_transmit_deadline_after_hook : forall cyc cfg ts t f ok d ts',
+  treachable cyc cfg ts -> tstep cyc ts (TTransmit t f ok d) = Some ts' ->
+  (ts_hr ts t + send_timeout (cyc t) <= d <= ts_clk ts t + send_timeout (cyc t))%Z.
+Proof. exact transmit_deadline. Qed.
+Print Assumptions C14_transmit_deadline_after_hook.
+
+(** a frame is never handed to the frame transmitter without a deadline *)
+Theorem C14_transmit_has_deadline : forall cyc ts e ts' t f ok,
+  tstep cyc ts e = Some ts' -> untimed e = [Transmit t f ok] ->
+  exists d, e = TTransmit t f ok d /\ ts_dl ts t = Some d.
+Proof. exact transmit_has_deadline. Qed.
+Print Assumptions C14_transmit_has_deadline.
+
+(** the timed layer only adds observations: forgetting time a timed run is a run of the LTS (so
+    every theorem above applies to it), and every accepted trace of the LTS is the image of one *)
+Theorem C14_timed_refines : forall cyc tr ts ts',
+  trun cyc ts tr = Some ts' -> run (ts_s ts) (flat_map untimed tr) = Some (ts_s ts').
+Proof. exact timed_refines. Qed.
+Print Assumptions C14_timed_refines.
+
+Theorem C14_accepted_can_be_timed : forall cyc cfg tr,
+  accepts cfg tr = true -> exists ttr ts', flat_map untimed ttr = tr /\ trun cyc (tinit cfg) ttr = Some ts'.
+Proof. exact accepted_can_be_timed. Qed.
+Print Assumptions C14_accepted_can_be_timed.
+
+(** Run: on EVERY return path after a successful Connect - cancelled before Run was called, while
+    Connect was in progress, while running, or stopped by a failing goroutine - conn.Close() has
+    been called (exactly once) and every goroutine of the group has returned *)
+Theorem C14_run_returns_clean : forall q,
+  qreachable q -> q_pc q = QReturned -> q_connected q = true ->
+  q_closes q = 1 /\ q_live q = 0 /\ q_closer q = false.
+Proof. exact run_returns_clean. Qed.
+Print Assumptions C14_run_returns_clean.
+
+(** in particular Run cannot return between the successful Connect and the start of the group,
+    and from g.Wait() only after the closer has closed the connection and all workers returned *)
+Theorem C14_run_no_early_return : forall q ok, q_pc q = QConnected -> qstep q (QReturn ok) = None.
+Proof. exact connected_no_early_return. Qed.
+Print Assumptions C14_run_no_early_return.
+
+Theorem C14_run_return_needs_close : forall q ok q',
+  q_pc q = QRunning -> qstep q (QReturn ok) = Some q' -> q_closer q = false /\ q_live q = 0.
+Proof. exact running_return_needs_close. Qed.
+Print Assumptions C14_run_return_needs_close.
+
+(** the connection is closed only after a cancellation or a failure; if Connect failed nothing is closed *)
+Theorem C14_run_close_needs_stop : forall q,
+  qreachable q -> q_closes q <> 0 -> q_cancelled q || q_failed q = true.
+Proof. exact close_needs_stop. Qed.
+Print Assumptions C14_run_close_needs_stop.
+
+Theorem C14_run_no_conn_no_close : forall q,
+  qreachable q -> q_connected q = false -> q_closes q = 0 /\ q_live q = 0 /\ q_closer q = false.
+Proof. exact run_no_conn_no_close. Qed.
+Print Assumptions C14_run_no_conn_no_close.
+
+(** once cancelled, a Run that has been called and has not returned is never stuck *)
+Theorem C14_run_cancel_not_stuck : forall q,
+  qreachable q -> q_cancelled q = true -> q_pc q <> QStart -> q_pc q <> QReturned ->
+  exists e q', e <> QCancel /\ qstep q e = Some q'.
+Proof. exact run_cancel_enabled_path. Qed.
+Print Assumptions C14_run_cancel_not_stuck.
+
 (** non-vacuity: a cyclic transmitter (2) and an application (3): enable while parked, one tick
     transmitted, disable arriving while the loop is inside the hook (the toggle is not lost: it is
     handled when the loop is back in select), one stale tick, an event request, cancel.
@@ -230,4 +321,30 @@ Example C14_nonvacuous :
   run_receiver [mkRframe 5 true true true; mkRframe 9 false true true; mkRframe 6 true true false;
                 mkRframe 7 true true true] true
   = ([ActApply 5; ActHook 5; ActApply 6; ActHook 6], ResHook 6).
+Proof. vm_compute. repeat split. Qed.
+
+(** non-vacuity of the additions: an event request whose hook returns at clock 700 (the request was
+    accepted at 100) on a message with cycle time 50: the deadline 760 = 710 + 50 is accepted, the
+    deadline 150 = 100 + 50 (derived from the transmit time taken before the hook) is not;
+    a transmitter started with the flag already set and no wake-up token reads it and arms the
+    ticker, it can neither skip the read nor read "false";
+    Run cancelled during Connect closes the connection before it returns, and cannot return without *)
+Definition c14_tcfg := cfg_of_list [(2, RoleTx false); (3, RoleApp)].
+Definition c14_ttrace (base : Z) : list tevent :=
+  [ TE (TxInit 2); TE (Lock 2); TE (Access 2 (WFlag false)); TE (Unlock 2); TE (Apply 2); TE (GetWake 2);
+    TE (Offer 3 2); TE (Accept 2 3); TStamp 2 100; TE (Lock 2); TE (Access 2 WHook); TE (Access 2 WTime); TE (Unlock 2);
+    TE (HookCall 2); TStamp 2 700; TE (HookRet 2 true); TE (Lock 2); TE (Access 2 (WFrame 0)); TE (Unlock 2);
+    TDeadline 2 base; TStamp 2 720; TTransmit 2 0 true (base + 50) ].
+Example C14_additions_nonvacuous :
+  (match trun (fun _ => 50%Z) (tinit c14_tcfg) (c14_ttrace 710) with Some _ => True | None => False end) /\
+  trun (fun _ => 50%Z) (tinit c14_tcfg) (c14_ttrace 100) = None /\
+  (match qrun qinit [QConnectCall; QCancel; QConnectRet true; QSpawn 3; QClose; QWorkerRet true; QWorkerRet false; QWorkerRet true; QReturn true] with
+   | Some q => q_clean q = true /\ q_closes q = 1
+   | None => False end) /\
+  accepts (cfg_of_list [(2, RoleTxOn true)])
+    [TxInit 2; Lock 2; Access 2 (WFlag true); Unlock 2; Apply 2; GetWake 2; Tick 2; TickTake 2] = true /\
+  accepts (cfg_of_list [(2, RoleTxOn true)]) [TxInit 2; GetWake 2] = false /\
+  accepts (cfg_of_list [(2, RoleTxOn true)]) [TxInit 2; Lock 2; Access 2 (WFlag false)] = false /\
+  qrun qinit [QCancel; QConnectCall; QConnectRet true; QReturn true] = None /\
+  qrun qinit [QCancel; QConnectCall; QConnectRet true; QSpawn 3; QWorkerRet true; QWorkerRet true; QWorkerRet true; QReturn true] = None.
 Proof. vm_compute. repeat split. Qed.
